@@ -2243,6 +2243,21 @@ impl TransactionBuilder {
                             })?;
                         }
                     }
+                    if !change_left.is_zero() {
+                        // The last change output was priced with its minimum coin. The leftover ADA
+                        // it receives below may need a wider encoding of that coin, and the fee has
+                        // to cover those bytes as well.
+                        let last = self.outputs.0.last().unwrap().clone();
+                        let mut topped_up = last.clone();
+                        topped_up.amount = last.amount.checked_add(&change_left)?;
+                        let fee_growth = self
+                            .fee_for_output(&topped_up)?
+                            .checked_sub(&self.fee_for_output(&last)?)?;
+                        if change_left.coin >= fee_growth {
+                            new_fee = new_fee.checked_add(&fee_growth)?;
+                            change_left = change_left.checked_sub(&Value::new(&fee_growth))?;
+                        }
+                    }
                     self.set_final_fee(new_fee);
                     // add in the rest of the ADA
                     if !change_left.is_zero() {
